@@ -53,4 +53,6 @@ AllUn  == {"+", "-", "~", "!"}
 AllBin == {"+", "-", "*", "/", "%", "<<", ">>", "&", "|", "^", "<", "<=", ">", ">=", "==", "!="}
 AllLog == {"&&", "||"}
 NoOps  == {}
+DivOnly == {"/"}
+ZeroOne == {1, 2}
 ===========================================================================
